@@ -71,9 +71,16 @@ int main(int argc, char** argv) {
     Sol s = gen(r, false);   // non-finite values are C05's rejection clause
     int fmt = (int)r.below(5);  // 0,1 text; 2 text CRLF; 3,4 binary
     bool binary = fmt >= 3;
-    std::string bytes = binary ? encode_binary(s) : encode_text(s, fmt == 2);
     std::string how = "valid"; int nmut = 0;
-    if (!r.chance(1, 6)) { nmut = r.chance(3, 4) ? 1 : r.range(2, 4); std::string h; how = ""; for (int i = 0; i < nmut; ++i) { bytes = mutate(r, bytes, binary, h); how += (i ? "+" : "") + h; } }
+    bool lens_off = false;
+    if (!s.sufs.empty() && r.chance(1, 8)) {      // declared name/table length off by one or two (the classic boundary of the length checks)
+      auto& sf = s.sufs[r.below(s.sufs.size())]; static const int dl[] = {-1, 1, 2, -2};
+      if (r.chance(1, 2) || sf.table.empty()) sf.namelen_delta = dl[r.below(4)]; else sf.tablen_delta = dl[r.below(4)];
+      lens_off = true;
+    }
+    std::string bytes = binary ? encode_binary(s) : encode_text(s, fmt == 2);
+    if (lens_off) how = "suffix-length-off";
+    if (!lens_off && !r.chance(1, 6)) { nmut = r.chance(3, 4) ? 1 : r.range(2, 4); std::string h; how = ""; for (int i = 0; i < nmut; ++i) { bytes = mutate(r, bytes, binary, h); how += (i ? "+" : "") + h; } }
     Handler h; h.rng = &r;
     h.policy = r.chance(2, 3) ? 0 : r.range(1, 2);
     // declared sizes: equal / smaller / larger / zero
